@@ -6,6 +6,8 @@ import (
 	"time"
 
 	"0chain.net/chaincore/transaction"
+	"0chain.net/smartcontract/minersc"
+	"0chain.net/smartcontract/storagesc"
 	"0chain.net/smartcontract/zcnsc"
 
 	"verifh/mon"
@@ -100,6 +102,7 @@ func skScenarioC11(h *Hist, mons []Monitor) {
 			continue
 		}
 		x.skDrive(p, k)
+		x.skTopUpAtMaxStake(p)
 		h.EndBlock()
 		h.W.Advance(time.Duration(1+r.Intn(60)) * time.Second)
 	}
@@ -141,7 +144,9 @@ func (x *skCtx) skMinerTarget(kind string, k *int) *skProv {
 	if val < cfg.MinStake {
 		val = cfg.MinStake
 	}
-	in := func() map[string]interface{} { return map[string]interface{}{"provider_type": n.PType, "provider_id": n.ID} }
+	in := func() map[string]interface{} {
+		return map[string]interface{}{"provider_type": n.PType, "provider_id": n.ID}
+	}
 	return &skProv{Kind: kind, ID: n.ID, Val: val,
 		Lock: func(from *world.Wallet, v uint64, mut string) *Call {
 			meta := map[string]interface{}{"provider_type": n.Type, "provider_id": n.ID, "staker": from.ID, "value": v, "sent_provider_type": n.PType, "scenario": "delegate-limit"}
@@ -289,7 +294,9 @@ func (x *skCtx) skAuthorizerTarget(k *int) *skProv {
 		return nil
 	}
 	val := []uint64{1e10, 5e10, 3e12}[r.Intn(3)]
-	input := func() map[string]interface{} { return map[string]interface{}{"provider_type": 5, "provider_id": a.W.ID} }
+	input := func() map[string]interface{} {
+		return map[string]interface{}{"provider_type": 5, "provider_id": a.W.ID}
+	}
 	return &skProv{Kind: "authorizer", ID: a.W.ID, Val: val,
 		Lock: func(from *world.Wallet, v uint64, mut string) *Call {
 			c := &Call{Name: "zcn.stake", Mut: mut, Meta: map[string]interface{}{"provider_type": "authorizer", "provider_id": a.W.ID, "stake": "lock", "scenario": "delegate-limit"},
@@ -438,5 +445,48 @@ func (x *skCtx) skDrive(p *skProv, k int) {
 	}
 	if ids, _, _ = x.skPools(p); len(ids) == k {
 		stranger("pool-full-again-new-staker")
+	}
+}
+
+// skTopUpAtMaxStake walks one delegate of the provider up to the max_stake in force with top-up locks: to max_stake - m, then a
+// top-up of m+1 (each lock is itself within the bounds, the pool it would leave behind is not), then m (the pool holds exactly
+// max_stake). m is min_stake or 1. monC11 judges the pool every applied lock leaves behind against the bounds of the pre-state.
+func (x *skCtx) skTopUpAtMaxStake(p *skProv) {
+	h := x.h
+	addr := map[string]string{"miner": minersc.ADDRESS, "sharder": minersc.ADDRESS, "blobber": storagesc.ADDRESS, "validator": storagesc.ADDRESS, "authorizer": zcnsc.ADDRESS}[p.Kind]
+	lo, hi, ok := h.stakeBoundsC11(h.Cur, addr)
+	m := x.skMember(p)
+	if !ok || m == nil || hi == 0 || hi > 1e16 || lo >= hi {
+		h.C("C11", "sk_top_up_at_max:no-target:"+p.Kind)
+		return
+	}
+	sp := h.stakePool(h.Cur, "", p.ID)
+	if sp == nil {
+		return
+	}
+	bal := sp.Pools[m.ID].Balance
+	step := lo
+	if step == 0 {
+		step = 1
+	}
+	if bal+2*step+1 >= hi {
+		h.C("C11", "sk_top_up_at_max:already-near:"+p.Kind)
+		return
+	}
+	// funds for the walk
+	x.sub(&Call{Name: "send", Meta: map[string]interface{}{"setup": "stake-scenario"}, Spec: world.TxnSpec{From: h.W.Clients[0], To: m.ID, Value: Coin(hi - bal + 1e10), Type: transaction.TxnTypeSend}})
+	first := hi - step - bal
+	if o := x.sub(p.Lock(m, first, "top-up-to-just-below-max-stake")); o == nil || o.Outcome != "success" {
+		h.C("C11", "sk_top_up_at_max:first-refused:"+p.Kind)
+		return
+	}
+	if o := x.sub(p.Lock(m, step+1, "top-up-crossing-max-stake")); o != nil {
+		h.C("C11", "sk_top_up_crossing_max_stake:"+p.Kind+"|"+o.Outcome)
+	}
+	if o := x.sub(p.Lock(m, step, "top-up-to-exactly-max-stake")); o != nil {
+		h.C("C11", "sk_top_up_to_exactly_max_stake:"+p.Kind+"|"+o.Outcome)
+	}
+	if o := x.sub(p.Lock(m, step, "top-up-above-max-stake")); o != nil {
+		h.C("C11", "sk_top_up_above_max_stake:"+p.Kind+"|"+o.Outcome)
 	}
 }
